@@ -11,6 +11,7 @@ from ..cfg import CFG
 from ..lexmodel import LexModel, Rule
 from ..model import AnalysisError, attr_chain, norm, short, walk_local
 from ..report import Ctx
+from .. import fillmodel
 from ..rx import Auto, END, not_included, prefix_preempts
 from ..tokbuf import FillModel
 
@@ -169,22 +170,15 @@ def run(ctx: Ctx) -> None:
     ctx.sample({"rule": "R8.6", "pairs": {f"{a}>{b}": w for (a, b), w in found.items()}})
 
     # ------------------------------------------------------------------ R8.7
-    ctx.rule("R8.7", "UDL fusion: start set = literal token types, suffix must be a NAME starting with '_', fused value/type, every buffered token examined", minimum=4)
+    ctx.rule("R8.7", "UDL fusion: start set = literal token types, suffix must be a NAME starting with '_', fused value/type, every buffered token examined", minimum=3)
     lit_types = {r.tokname for r in lm.rules if r.delivers and ("CONST" in r.tokname or "LITERAL" in r.tokname)}
     ctx.ob("R8.7", "lexer:LexerTokenStream|_user_defined_literal_start", lm.udl_start == lit_types,
            msg=f"UDL start set differs from the literal token types: missing {sorted(lit_types - lm.udl_start)}, extra {sorted(lm.udl_start - lit_types)}",
            node=fm.fn, mod=lexmod, nontrivial=False)
-    cond_ok, fuse_ok = _udl_shape(fm)
-    ctx.ob("R8.7", "lexer:LexerTokenStream._fill_tokbuf|fusion condition", cond_ok,
-           msg="the test that rejects fusion is not `type != NAME or value[0] != '_'` on the look-ahead token", node=fm.fn, mod=lexmod)
-    ctx.ob("R8.7", "lexer:LexerTokenStream._fill_tokbuf|fused token", fuse_ok,
-           msg="fusion does not produce value = literal + suffix and type = 'UD_' + literal type", node=fm.fn, mod=lexmod)
-    for what in ("UDL", "NEWLINE"):
-        bad = fm.untested_appends(what)
-        ctx.ob("R8.7" if what == "UDL" else "R8.2", f"lexer:LexerTokenStream._fill_tokbuf|every buffered token is tested for {what}", not bad,
-               msg=("" if not bad else f"`{short(bad[0][0].stmt)}` buffers a token and the next raw token is fetched without testing it for "
-                    + ("a user-defined-literal start: a literal directly after another literal is never fused with its suffix" if what == "UDL" else "NEWLINE: the buffer no longer ends at line ends")),
-               node=bad[0][0].stmt if bad else fm.fn, mod=lexmod)
+    # the buffer fill itself, interpreted over every short script of raw tokens (sa/fillmodel.py): fusion of a literal with
+    # its '_' suffix, one physical line per call with line splices removed, every raw token kept once with a location
+    fillmodel.obligations(ctx, "R8.7", lexmod, set(lm.udl_start), ("udl", "keep"))
+    fillmodel.obligations(ctx, "R8.2", lexmod, set(lm.udl_start), ("line",))
 
     # ------------------------------------------------------------------ R8.8
     ctx.rule("R8.8", "reference literal grammar is included in the intended rule's language and no earlier rule matches a prefix of a reference literal", minimum=20)
